@@ -58,3 +58,52 @@ def base_var(rng, sc, factor=1.0):
                 n_processors=rng.randrange(1, 4), bootstrap_factor=factor,
                 bootstrap_iteration=rng.choice([1, 3, 5]), rng_seed=rng.randrange(1, 10 ** 6),
                 n_runners_up=rng.choice([0, 2, 4]), min_markers=rng.choice([0, 1, 3]))
+
+
+def _leaves_under(model, li, node):
+    if li == len(model) - 1:
+        return [node]
+    kids = dict((n, c) for n, c in model[li])[node]
+    out = []
+    for k in kids:
+        out += _leaves_under(model, li + 1, k)
+    return out
+
+
+def near_tie_cell(sc, out, qrow, genes, normalization):
+    """Float analysis of one cell (bootstrap factor 1: every iteration uses all markers of the node):
+    True if at some node with >= 2 children the best correlation is matched within 1e-9 by a leaf of
+    ANOTHER child (exact ties of two-marker nodes, identical reference profiles, ...).  Such a vote is
+    decided by the last bit of a BLAS product, which may depend on the shape of the matrix the cell is
+    mapped in; it is outside what 'up to floating-point rounding' can promise and is excused (counted)."""
+    qrow = np.asarray(qrow, dtype=float)
+    if normalization == 'raw':
+        s = qrow.sum()
+        qrow = np.log2(1.0 + qrow * 1.0e6 / (s if s > 0 else 1.0))
+    qv = {pipeline.gname(g): qrow[j] for j, g in enumerate(genes)}
+    model, levels = sc.tree.model, sc.tree.levels
+    mg = out.get('marker_genes', {})
+    parents = [('None', None, [n for n, _ in model[0]])]
+    for li, lv in enumerate(model[:-1]):
+        for node, kids in lv:
+            parents.append((f'{levels[li]}/{sc.tree.name(node)}', li, kids))
+    for key, li, kids in parents:
+        if len(kids) < 2 or key not in mg:
+            continue
+        gl = [g for g in mg[key] if g in qv]
+        if not gl:
+            continue
+        q = np.array([qv[g] for g in gl])
+        best = {}
+        for k in kids:
+            cl = li + 1 if li is not None else 0
+            for lf in _leaves_under(model, cl, k):
+                r = np.array([sc.means[lf][int(g[1:])] for g in gl])
+                qc, rc = q - q.mean(), r - r.mean()
+                nq, nr = np.sqrt((qc * qc).sum()), np.sqrt((rc * rc).sum())
+                c = 0.0 if nq == 0 or nr == 0 else float((qc * rc).sum() / (nq * nr))
+                best[k] = max(best.get(k, -2.0), c)
+        vals = sorted(best.values(), reverse=True)
+        if len(vals) >= 2 and vals[0] - vals[1] <= 1e-9 and not (vals[0] == 0.0 and vals[1] == 0.0):
+            return True
+    return False
